@@ -651,8 +651,14 @@ func runCase(work string, cs caseSpec, id int) ([]gen.Case, error) {
 			return []gen.Case{{Class: "merge/" + cs.Class + "/setup", Go: "merge of the compound input failed: " + err.Error(),
 				Key: key, Detail: gen.Detail(cs)}}, nil
 		}
+		if o, err := open(c); err != nil && errors.Is(err, index.ErrEmptyShard) {
+			// every member was empty: the compound shard has no repositories and cannot be an input of anything
+			continue
+		} else if err == nil {
+			o.s.Close()
+		}
 		for _, k := range g {
-			if cs.Repos[k].Tomb {
+			if cs.Repos[k].Tomb && len(cs.Repos[k].Docs) > 0 {
 				if err := index.SetTombstone(c, cs.Repos[k].ID); err != nil {
 					return nil, err
 				}
@@ -674,6 +680,9 @@ func runCase(work string, cs caseSpec, id int) ([]gen.Case, error) {
 		inputs = re
 	}
 	detail := gen.Detail(cs)
+	if len(inputs) == 0 {
+		return nil, nil
+	}
 
 	// 3. merge
 	var inDumps []string
@@ -890,7 +899,7 @@ func main() {
 		}
 	}
 	r := gen.NewRand(f.Seed)
-	n := f.N(24, 600)
+	n := f.N(24, 300)
 	for i := 0; i < n; i++ {
 		run(genCase(r, i), id)
 		id++
